@@ -44,6 +44,25 @@ def valid_structures(tier: str, seed: int) -> List[bytes]:
                     continue
                 seen.add(key)
                 out.append(enc)
+                # the same structure with operand bytes that are all zero / all ones: a displacement, offset or immediate of exactly
+                # 0x00 (a length computed from the VALUE instead of from the mode bits shows only there) or 0xFF
+                if pre is None or tier == "thorough":
+                    hdr = len(s) - 4
+                    for fill in (0x00, 0xFF):
+                        s3 = s[:hdr] + bytes([fill] * 4)
+                        key3 = (pre, op, b2, fill)
+                        if s3[:L] == enc or key3 in seen:
+                            continue
+                        try:
+                            ins3 = decode(s3 + bytes(4), 0x1000, OPCODES)
+                            if ins3 is None or type(ins3).__name__ == "PRE" or ins3.length() != L:
+                                continue
+                        except Exception:
+                            continue
+                        if not documented(pre, op, s3[:L]):
+                            continue
+                        seen.add(key3)
+                        out.append(s3[:L])
     if tier != "thorough":
         # the other eleven prefixes, for the encodings where the prefix MATTERS: those whose rendered text changes when the prefix
         # is put in front (an internal-memory operand takes its addressing calculation from it); a few mode bytes each
